@@ -523,6 +523,40 @@ func c10Run(c *fw.Ctx, b fw.Batch) {
 			lay := c10Layouts[r.Intn(len(c10Layouts))]
 			c10JudgeObject(c, ms, lay, tags, true)
 		}
+	case "dict-keys":
+		// every printable literal of the tree's source as the key of one more top-level member
+		// (and of a member of log / asset): the verdict stays what the statement's members decide
+		for _, lit := range lib.SourceDictionary() {
+			if len(lit) < 1 || len(lit) > 40 || !utf8.Valid(lit) {
+				continue
+			}
+			okc := true
+			for _, ch := range lit {
+				if ch < 0x20 || ch == '"' || ch == '\\' || ch == 0x7f {
+					okc = false
+				}
+			}
+			k := string(lit)
+			if !okc || k == "type" || k == "log" || k == "asset" || bytes.Contains(lit, []byte("<svg")) {
+				continue
+			}
+			extra := jmem{k, raw([]string{`1`, `"x"`, `{"a":1}`, `["2.0"]`}[r.Intn(4)])}
+			inner := k
+			if inner == "version" || inner == "creator" || inner == "entries" {
+				inner = "x-" + inner
+			}
+			cases := [][]jmem{
+				{extra, {"a", raw(`1`)}},
+				{{"a", raw(`1`)}, extra},
+				{extra, {"type", raw(`"Feature"`)}},
+				{{"log", obj(jmem{inner, raw(`1`)}, jmem{"version", raw(`"1.2"`)})}, extra},
+				{extra, {"asset", obj(jmem{"version", raw(`"2.0"`)}, jmem{inner, raw(`true`)})}},
+			}
+			for _, ms := range cases {
+				c10JudgeObject(c, ms, c10Layouts[r.Intn(len(c10Layouts))], []string{"dict-key", "obj"}, false)
+			}
+			c.Count("source_literals_as_keys", 1)
+		}
 	case "big":
 		// objects of more than 4 MiB and 16 MiB with the deciding member at the very end / start
 		for _, size := range []int{5 << 20, 17 << 20} {
@@ -593,6 +627,7 @@ func init() {
 			bs = append(bs, batches("random", 6, nr, 1800)...)
 			bs = append(bs, batches("long", 2, nl, 1800)...)
 			bs = append(bs, batches("big", 1, 0, 1800)...)
+			bs = append(bs, batches("dict-keys", 1, 0, 1800)...)
 			return bs
 		},
 		Run: c10Run,
